@@ -114,7 +114,7 @@ func replayVisit(checker string) func(rc *runCtx, h *harness, v *interp.Violatio
 						confirmed, detail = i, bad
 					}
 				}
-				if strings.HasPrefix(v.Msg, "suggest:") && r.Status == "OK" && i < len(sources) {
+				if strings.HasPrefix(v.Msg, "suggest:") && r.Status == "OK" && i < len(sources) && r.Warnings > 0 {
 					bad, fixed, offs := badSuggestion(checker, sources[i], r.JSON)
 					if bad == "" {
 						bad = stillReported(checker, params, fixed, offs)
